@@ -162,6 +162,42 @@ func handshakePair(sopt *gws.ServerOption, copt *gws.ClientOption, sh, ch gws.Ev
 	return r.c, client, sc, cc, nil
 }
 
+// handshakeWith performs a real opening handshake of a fresh client against an EXISTING upgrader (an upgrader serves many
+// connections: nothing of one handshake may show in the next).
+func handshakeWith(up *gws.Upgrader, copt *gws.ClientOption, ch gws.Event) (server, client *gws.Conn, sc, cc *memConn, err error) {
+	sc, cc = newPipe()
+	if copt.Logger == nil {
+		copt.Logger = quietLogger{}
+	}
+	if copt.Addr == "" {
+		copt.Addr = "ws://verif.test/"
+	}
+	type res struct {
+		c   *gws.Conn
+		err error
+	}
+	ch1 := make(chan res, 1)
+	go func() {
+		br := bufio.NewReaderSize(sc, 4096)
+		req, e := http.ReadRequest(br)
+		if e != nil {
+			ch1 <- res{nil, e}
+			return
+		}
+		c, e := up.UpgradeFromConn(sc, br, req)
+		ch1 <- res{c, e}
+	}()
+	client, _, cerr := gws.NewClientFromConn(ch, copt, cc)
+	r := <-ch1
+	if cerr != nil {
+		return nil, nil, sc, cc, fmt.Errorf("client: %w", cerr)
+	}
+	if r.err != nil {
+		return nil, nil, sc, cc, fmt.Errorf("server: %w", r.err)
+	}
+	return r.c, client, sc, cc, nil
+}
+
 // rawRequest builds an upgrade request with the given extension offer ("" = none) and extra header lines.
 func rawRequest(ext string, extra ...string) []byte {
 	var b bytes.Buffer
